@@ -180,6 +180,18 @@ def run(chk):
                     pres = pre + pre_binds if d <= 2 else (pre[:2] if (not quick or any(l[0] == "class" for l in levels)) else pre[:1])
                     for prog in sc.spine_programs(list(levels), pres, post, inner):
                         PROGS.append(tuple(m(v) for m in mod_pre) + prog + (("log", "x"), ("log", "y")))
+    # the enclosing binding is a *parameter* of each kind (positional-only, plain, with default, keyword-only, #* and #**), alone and
+    # with a module-level variable or an outer let of the same name
+    for pk in sc.PARAM_KINDS:
+        for mid in ((), (("let", ("y",)),), (("fn",),), (("let", ("x",)),), (("defn",), ("let", ("y",)))):
+            for outer in ((), (("let", ("x",)),)):
+                levels = list(outer) + [("defnp", "x", pk)] + list(mid)
+                for mod_pre in ((), (SETV("x"),)):
+                    v = sc.Vals()
+                    for decl in (NONLOCAL("x"), GLOBAL("x")):
+                        inner = [((lambda v_, decl=decl: ("fn", tuple(m(v_) for m in (decl, SETV("x"), LOG("x"))))),)]
+                        for prog in sc.spine_programs(levels, [()], [(LOG("x"),)], inner):
+                            PROGS.append(tuple(m(v) for m in mod_pre) + prog + (("log", "x"),))
     # a (global x) written directly in a let body (no function in between): from the declaration on, x is the module variable
     # everywhere in that Python scope - in the let that declares it, in the enclosing lets after the inner one is left, and in
     # except-variable scopes
@@ -207,6 +219,8 @@ def run(chk):
                 if t[0] in ("let", "fn", "defn", "class"):
                     sub = t[2] if t[0] in ("let", "defn", "class") else t[1]
                     out.append(t[0] + ">" + shape(sub))
+                elif t[0] == "defnp":
+                    out.append(f"defn({t[3]} parameter)>" + shape(t[5]))
             return "+".join(o for o in out if o)
         def class_assigns_let_name(body, bound=frozenset(), in_class=False):
             for t in body:
@@ -218,6 +232,9 @@ def run(chk):
                         return True
                 elif t[0] in ("fn", "defn", "def"):
                     if class_assigns_let_name(t[2] if t[0] != "fn" else t[1], bound, False):
+                        return True
+                elif t[0] == "defnp":
+                    if class_assigns_let_name(t[5], bound - {t[2]}, False):
                         return True
                 elif in_class and ((t[0] == "setv" and t[1] in bound) or (t[0] == "bind" and t[2] in bound)):
                     return True
